@@ -22,7 +22,7 @@ def norm(x):
     return "panic" if x.startswith("panic") else x
 
 
-def gen_worlds(c, n, depth, nfuncs, max_params):
+def gen_worlds(c, n, depth, nfuncs, max_params, extra_corpus=()):
     d = os.path.join(BUILD, "abi", c.pid)
     os.makedirs(d, exist_ok=True)
     paths, stats = [], {}
@@ -35,6 +35,9 @@ def gen_worlds(c, n, depth, nfuncs, max_params):
     # fixed boundary corpus worlds (replayed first)
     cdir = os.path.join(VERIF, "corpus", "abi")
     corpus = sorted(os.path.join(cdir, f) for f in os.listdir(cdir) if f.endswith(".wit")) if os.path.isdir(cdir) else []
+    for sub in extra_corpus:
+        xd = os.path.join(VERIF, "corpus", sub)
+        corpus += sorted(os.path.join(xd, f) for f in os.listdir(xd) if f.endswith(".wit"))
     return corpus + paths, stats
 
 
